@@ -11,8 +11,8 @@ REPO = os.environ.get("VERIF_REPO", "/repo")
 SPECS = os.path.join(VERIF, "specs")
 HARNESS = os.path.join(VERIF, "harness")
 BUILD = os.path.join(VERIF, ".build")
-EVID = os.path.join(VERIF, "evidence")
-REPLAYS = os.path.join(VERIF, "replays")
+EVID = os.environ.get("VERIF_EVIDENCE_DIR") or os.path.join(VERIF, "evidence")
+REPLAYS = os.environ.get("VERIF_REPLAY_DIR") or os.path.join(VERIF, "replays")
 TLAJARS = "/opt/veriftools/tla/tla2tools.jar:/opt/veriftools/tla/CommunityModules-deps.jar"
 NCPU = os.cpu_count() or 4
 
@@ -52,14 +52,24 @@ def cleanup():
 def build(cmd, race=False, tags="verif"):
     """go build ./cmd/<cmd> of the harness module against /repo's current working tree."""
     os.makedirs(BUILD, exist_ok=True)
-    shutil.copyfile(os.path.join(REPO, "go.sum"), os.path.join(HARNESS, "go.sum"))
-    out = os.path.join(BUILD, cmd + ("-race" if race else ""))
+    hdir, bdir = HARNESS, BUILD
+    if os.path.realpath(REPO) != "/repo":
+        # testing the checks against a scratch copy of the repository (seeded changes): build a private copy of the
+        # harness module whose replace directive points there
+        hdir = os.path.join(scratch("harness-"), "harness")
+        shutil.copytree(HARNESS, hdir)
+        gm = open(os.path.join(hdir, "go.mod")).read().replace("=> /repo", "=> " + os.path.realpath(REPO))
+        open(os.path.join(hdir, "go.mod"), "w").write(gm)
+        bdir = os.path.join(os.path.dirname(hdir), "build")
+        os.makedirs(bdir, exist_ok=True)
+    shutil.copyfile(os.path.join(REPO, "go.sum"), os.path.join(hdir, "go.sum"))
+    out = os.path.join(bdir, cmd + ("-race" if race else ""))
     args = ["go", "build", "-tags", tags, "-o", out]
     if race:
         args.append("-race")
     args.append("./cmd/" + cmd)
     t = time.time()
-    p = subprocess.run(args, cwd=HARNESS, env=goenv(), stdout=subprocess.PIPE, stderr=subprocess.STDOUT, text=True)
+    p = subprocess.run(args, cwd=hdir, env=goenv(), stdout=subprocess.PIPE, stderr=subprocess.STDOUT, text=True)
     if p.returncode != 0:
         msg = "\n".join(l for l in p.stdout.splitlines() if "GNU-stack" not in l and "deprecated" not in l)
         raise Machinery("harness build failed for %s:\n%s" % (cmd, msg[-4000:]))
@@ -170,7 +180,15 @@ def tlc_generate(cwd, spec, cfg, num, depth, seed, timeout=300):
     behs = parse_behaviours(out)
     if not behs:
         raise Machinery("TLC generated no behaviours (%s/%s rc=%s):\n%s" % (spec, cfg, rc, "\n".join(out.splitlines()[-30:])))
-    return behs, wall
+    # In simulation mode TLC evaluates the Emit invariant on every candidate successor of the last step, so one
+    # random run is printed several times with different last steps: keep one behaviour per run.
+    seen, uniq = set(), []
+    for b in behs:
+        h = scen_hash(b[:-1])
+        if h not in seen:
+            seen.add(h)
+            uniq.append(b)
+    return uniq, wall
 
 
 def tlc_enumerate(cwd, spec, cfg, timeout=600, workers=None):
@@ -188,6 +206,7 @@ def tlc_enumerate(cwd, spec, cfg, timeout=600, workers=None):
 
 _re_acc = re.compile(r'<<\s*"ACCEPTED",\s*"((?:[^"\\]|\\.)*)"\s*>>')
 _re_hw = re.compile(r'<<\s*"HW",\s*"((?:[^"\\]|\\.)*)"\s*>>')
+_re_flags = re.compile(r'<<\s*"FLAGS",\s*"((?:[^"\\]|\\.)*)"\s*>>')
 
 
 def tlc_validate(cwd, spec, cfg, traces, timeout=900, deque=True, fname="traces.ndjson", xss="64m"):
@@ -211,7 +230,11 @@ def tlc_validate(cwd, spec, cfg, traces, timeout=900, deque=True, fname="traces.
     m = None
     for m in _re_states.finditer(out):
         pass
-    stats = dict(wall=wall, states=int(m.group(2)) if m else 0, transitions=int(m.group(1)) if m else 0, out=out)
+    stats = dict(wall=wall, states=int(m.group(2)) if m else 0, transitions=int(m.group(1)) if m else 0, out=out, flags=[])
+    fl = _re_flags.search(out)
+    if fl:
+        # known-deviation disjuncts taken: list of [scenario index (1-based), tag]
+        stats["flags"] = [(int(x[0]) - 1, x[1]) for x in json.loads(_unescape_tla(fl.group(1)))]
     return acc, hw, stats
 
 
